@@ -384,7 +384,7 @@ def model_terms(sc, res):
         if a is None or b is None: return terms + [('streams', 'false', None)]
         ys.append('Y %s %s %s' % (a, b, cpath(canon_abs(y[2], base))))
     fs = '[' + '; '.join('(%s, %s)' % (cpath(canon_abs(p, base)), cN(c)) for p, c in f['snapshot']) + ']'
-    ft = '[' + '; '.join('(%s, %s)' % (cpath(comps(p)), 'FRaise' if v == 'raise' else '(FSome %s)' % cN(v)) for p, v in sorted(f['filter_at_root'].items()) if v is not None) + ']'
+    ft = '[' + '; '.join('(%s, %s)' % (cpath(comps(p)), 'FRaiseIO' if v == 'raise' else '(FSome %s)' % cN(v)) for p, v in sorted(f['filter_at_root'].items()) if v is not None) + ']'
     def blob(h): return 'None' if h == '0' * 40 else '(Some %s)' % cN(f['blobs'].get(h))
     es = '[' + '; '.join('E %s %s %s %s' % (cpath(comps(e['a'])), blob(e['asha']), cpath(comps(e['b'])), blob(e['bsha'])) for e in f['raw']) + ']'
     qp = '[' + '; '.join(cpath(comps(p)) for p in f['prefixed_paths']) + ']'
